@@ -24,11 +24,11 @@ CHUNK = 25
 ASSUMPTIONS = [
     "two histories reaching the same masked tree + same model state have the same futures (the managers keep no other state; the "
     "'new instance' operation and the per-history fresh-instance check exercise exactly that claim)",
-    "source files start with s1.csv=A, s2.csv=B so that every add is enabled; remove of an unregistered name is disabled",
+    "source files start with s1.csv=A, s2.txt=B (two different extensions) so that every add is enabled; remove of an unregistered name is disabled",
 ]
 
 CONTENTS = {"A": "a,b\n1,2\n", "B": "a,b\n3,4\n5,6\n", "C": "x\n"}
-SRCS = ["s1.csv", "s2.csv"]
+SRCS = ["s1.csv", "s2.txt"]
 NAMES = ["n1", "n2"]
 
 
@@ -57,7 +57,7 @@ def run_history(hist):
     root = sandbox.root()
     sandbox.reset_dirs("inputs", "srcs", "archive")
     srcdir = os.path.join(root, "srcs")
-    src = {"s1.csv": "A", "s2.csv": "B"}
+    src = {"s1.csv": "A", "s2.txt": "B"}
     for s, c in src.items():
         with open(os.path.join(srcdir, s), "w", encoding="utf-8", newline="") as f:
             f.write(CONTENTS[c])
@@ -97,8 +97,9 @@ def run_history(hist):
                 b = f.read()
             if b != content.encode("utf-8"):
                 bad(f"{tag}current content", b[:40], content[:40])
-            if os.path.basename(p) != h + ".csv":
-                bad(f"{tag}file name is sha256+ext", os.path.basename(p), h + ".csv")
+            ext = os.path.splitext(srcname)[1]
+            if os.path.basename(p) != h + ext:
+                bad(f"{tag}file name is sha256+ext", os.path.basename(p), h + ext)
             try:
                 fp = fm.get_fingerprint_for_name(nm)
                 if fp != h:
@@ -114,7 +115,7 @@ def run_history(hist):
             if got != model.names[nm]["manifest"]:
                 bad(f"{tag}manifest entries", got, model.names[nm]["manifest"])
             for (sn, bh), bc in model.names[nm]["blobs"].items():
-                bp = os.path.join(fm.named_file_home(nm), sn, bh + ".csv")
+                bp = os.path.join(fm.named_file_home(nm), sn, bh + os.path.splitext(sn)[1])
                 if not os.path.isfile(bp):
                     bad(f"{tag}stored version missing", bp.replace(root, ""), "present")
                 else:
